@@ -53,7 +53,8 @@ class Recording:
 
 # ------------------------------------------------------------------ pattern generators
 ATOMS = ['a', 'b', 'ab', '[ab]', '.', '\\d', 'x?', 'a*', '(?:ab)+', '', '\\b', '^', '$', '\\n', 'c', '[^a]', 'a|b', '\\w+', ' ',
-         'a{2}', '(?=b)', '(?<!a)', 'é', '.*?', '\\s', '(?=(b))', '(?=(?P<la>a)(b)?)', '\\b(?=(\\w+))', '(?<=(a))', '(?=(x?))', 'A', '[A-Z]b']
+         'a{2}', '(?=b)', '(?<!a)', 'é', '.*?', '\\s', '(?=(b))', '(?=(?P<la>a)(b)?)', '\\b(?=(\\w+))', '(?<=(a))', '(?=(x?))', 'A', '[A-Z]b',
+         '\\\\', "\\\\'", "'", '"', '\\\\(', "it's", '\\\\"']
 
 
 def gen_pattern(rnd, sequential=False):
@@ -115,6 +116,10 @@ DSL_OBJECTS = [
     lambda: AS.WordBoundary() + GR.Capture(QU.Indefinite('a'), 'as') + AS.WordBoundary(),
     lambda: QU.Optional(GR.Capture('a', 'o1')) + GR.Capture('b') + QU.Optional(GR.Capture('c', 'o2')),
     lambda: Pregex('a.b') + GR.Capture(Pregex('$')),
+    lambda: Pregex('\\') + GR.Capture(QU.OneOrMore(CL.AnyWordChar())),
+    lambda: Pregex("\\'") + QU.Optional(GR.Capture('q', 'qq')),
+    lambda: GR.Capture(Pregex('\\')) + GR.Capture(QU.Indefinite(CL.AnyLetter()), 'w'),
+    lambda: Pregex('a\\') + GR.Capture(Pregex('b') | CL.AnyDigit()) if False else Pregex('a\\') + GR.Capture(CL.AnyDigit() | 'b'),
 ]
 
 TEXT_PARTS = ['a', 'b', 'ab', 'x', ' ', '\n', '1', 'c', '', 'aa', 'abab', 'é', 'A', '$', 'a.b', '\t', 'd', 'C', '12', 'ba',
@@ -348,7 +353,9 @@ def _split_match(ms, t):
 WINDOWS = [0, 1, 2, 5]
 BADWIN = [(-1, 0, 'InvalidArgumentValueException'), (0, -3, 'InvalidArgumentValueException'), (1.5, 0, 'InvalidArgumentTypeException'),
           (0, '2', 'InvalidArgumentTypeException'), (None, 1, 'InvalidArgumentTypeException'), (True, 1, 'InvalidArgumentTypeException'),
-          (1, False, 'InvalidArgumentTypeException')]
+          (1, False, 'InvalidArgumentTypeException'), (0.0, 0.0, 'InvalidArgumentTypeException'), (0, 0.0, 'InvalidArgumentTypeException'),
+          (False, 0, 'InvalidArgumentTypeException'), (0, False, 'InvalidArgumentTypeException'), (0.0, 5, 'InvalidArgumentTypeException'),
+          (5, 5.0, 'InvalidArgumentTypeException'), (1.0, 1, 'InvalidArgumentTypeException'), (0, -0.0, 'InvalidArgumentTypeException')]
 
 PATH_METHODS = [
     ('has_match', ()), ('is_exact_match', ()), ('get_matches', ()), ('iterate_matches', ()), ('get_matches_and_pos', ()),
@@ -547,6 +554,13 @@ def gen_case(rnd, check, tier, idx):
             pat = 'a(b)?'
         case['pat'] = pat
     case['texts'] = texts_for(pat, rnd, 3 if tier == 'quick' else 5)
+    if sequential or not re.search(r'[*+]\)[*+?{]|\)\+|\)\*', pat):
+        if rnd.random() < 0.12:
+            # a long text: positions beyond the small-int range, many matches
+            base = ' '.join(case['texts'])
+            case['texts'] = [(base + ' ') * (300 // (len(base) + 1) + 2)] + case['texts'][:1]
+    if check == 'C14' and rnd.random() < 0.15:
+        case['texts'] = ['\ufeff' + case['texts'][0]] + case['texts'][1:]
     hl = rnd.choice([0, 1, 2, 3, 5, 8, 12]) if tier == 'quick' else rnd.choice([0, 2, 5, 12, 25, 40])
     case['hist'] = [rnd.choice(HIST_OPS) for _ in range(hl)]
     return case
